@@ -22,6 +22,8 @@ def main():
     sid, d = sys.argv[1], sys.argv[2]
     miri = "--miri" in sys.argv
     nodef = ["--no-default-features"] if "--nodef" in sys.argv else []
+    if "--release" in sys.argv:
+        nodef += ["--release"]
     if "--features" in sys.argv:
         nodef += ["--features", sys.argv[sys.argv.index("--features") + 1]]
     wt = f"/tmp/vs/{sid}"
